@@ -1050,9 +1050,12 @@ class Translator:
                         continue
                     raise Untranslatable(f"call {u[:80]}")
                 if isinstance(st, ast.Assign) and len(st.targets) == 1 and isinstance(st.targets[0], ast.Subscript) \
-                        and is_dset(st.targets[0].value) and ast.unparse(st.targets[0].slice) == ":" \
+                        and is_dset(st.targets[0].value) and isinstance(st.targets[0].slice, ast.Slice) \
+                        and st.targets[0].slice.lower is None and st.targets[0].slice.step is None \
                         and isinstance(st.value, ast.Name) and st.value.id in blob_names:
-                    out += "let ds := ds.map (fun d => Model.writeAt0 d blob)\n"
+                    up = st.targets[0].slice.upper
+                    src = "blob" if up is None else f"(blob.take {nat(up)})"
+                    out += f"let ds := ds.map (fun d => Model.writeAt0 d {src})\n"
                     continue
                 if isinstance(st, ast.If):
                     a = stmts(st.body) + "ds"
